@@ -40,6 +40,14 @@ var externWriters = map[string][]int{
 	"fmt.Fprintln":            {0},
 }
 
+// externFresh: functions outside the library whose results are new memory, never aliasing their arguments.
+var externFresh = map[string]bool{
+	"bytes.Replace": true, "bytes.ReplaceAll": true, "bytes.ToLower": true, "bytes.ToUpper": true, "bytes.Repeat": true,
+	"bytes.Join": true, "bytes.Clone": true, "bytes.Map": true, "errors.New": true, "fmt.Errorf": true, "fmt.Sprintf": true,
+	"fmt.Sprint": true, "regexp.MustCompile": true, "regexp.Compile": true, "io/ioutil.ReadFile": true, "os.ReadFile": true,
+	"strconv.Quote": true, "strings.ToUpper": true, "strings.ToLower": true,
+}
+
 func externName(fn *ssa.Function) string {
 	if fn.Pkg != nil {
 		if fn.Signature.Recv() != nil {
@@ -107,7 +115,12 @@ func (f *FuncInfo) call(st state, c ssa.CallInstruction) {
 			if f.a.isFake(callee) {
 				continue
 			}
-			// callee outside the library
+			// callee outside the library. Only statically named functions get the conservative "may write through its
+			// pointer arguments" treatment; methods reached through an interface (error.Error, fmt.Stringer, user
+			// parsers/interpreters) are covered by A-user / A-lib: they do not mutate their receivers or arguments
+			if cc.IsInvoke() || cc.StaticCallee() == nil {
+				continue
+			}
 			f.extern(st, c, callee, actuals, args, results)
 			continue
 		}
@@ -296,6 +309,9 @@ func (f *FuncInfo) extern(st state, c ssa.CallInstruction, callee *ssa.Function,
 	// results may alias the reference arguments or be new
 	for i := range results {
 		results[i].Add(Origin{Root: Root{K: RExtern, Obj: "result of " + name}})
+		if externFresh[name] {
+			continue
+		}
 		for j, a := range args {
 			if _, isSig := actuals[j].Type().Underlying().(*types.Signature); isSig {
 				continue
